@@ -15,7 +15,7 @@ class P(vlib.Prop):
         dict(name="split", cmd="c10", args=lambda t, s: ["-stage", "split"]),
         dict(name="e2e", cmd="c10", args=lambda t, s: ["-stage", "e2e"]),
     )
-    watch = ("pkg/build/layers.go", "pkg/build/tarball.go", "pkg/build/build.go")
+    watch = ("pkg/build/layers.go", "pkg/build/tarball.go", "pkg/build/build.go", "pkg/tarfs/fs.go")
     assumptions = (
         "package names in the installed set are distinct (the model carries the partition reachable from Go's byOrigin/byPackage maps)",
         "directories carry no owning package (tarfs gives only regular files, symlinks and hard links a tar entry); c10_flatten states it as a hypothesis and the harness reports a directory with an owner",
